@@ -55,14 +55,14 @@ EofOut == /\ R.e = "eofout" /\ state = "run"
 Stall == /\ R.e = "stall" /\ state = "run"
          /\ ~expired                                             \* duration passed => must have ended
          /\ (max > 0 => Total(fwd) <= max)                       \* above the limit => must have ended
-         /\ faulted \/ \A i \in 1..2 : R.open[i] =>
+         /\ (~faulted => \A i \in 1..2 : R.open[i] =>
                /\ fwd[i] = avail[i]                              \* nothing held back
-               /\ (cin[i] /\ avail[i] = sent[i] => cout[i])      \* EOF forwarded
+               /\ (cin[i] /\ avail[i] = sent[i] => cout[i])) = TRUE   \* EOF forwarded
          /\ UNCHANGED <<sent, avail, fwd, cin, cout, max, buf, dur, state, faulted, expired>>
 Done == /\ R.e = "done" /\ state = "run" /\ state' = "done"
         /\ CASE R.res = "ok" -> /\ \A i \in 1..2 : cin[i] /\ fwd[i] = sent[i]
                                 /\ (max > 0 => Total(fwd) <= max)
-             [] R.res = "err" -> faulted \/ (max > 0 /\ Total(fwd) > max)
+             [] R.res = "err" -> (~faulted => (max > 0 /\ Total(fwd) > max)) = TRUE
              [] R.res = "timeout" -> R.elapsed >= dur
              [] OTHER -> FALSE
         /\ UNCHANGED <<sent, avail, fwd, cin, cout, max, buf, dur, faulted, expired>>
